@@ -2,7 +2,7 @@
 NOT_APPLICABLE = []
 
 reg("C18", "^TestC18$", q=(3000, 1, 300), t=(20000, 16, 1500), fuzz=("FuzzC18", 120),
-    technique="property-based testing: odometer-exhaustive small-scope enumeration + rapid random sequences (+ native coverage-guided fuzzing of the same property through rapid.MakeFuzz in the thorough tier) against an integer-arithmetic specification",
+    technique="property-based testing: odometer-exhaustive small-scope enumeration + rapid random sequences, a quarter of them also through the notifier's real subscription channels (+ native coverage-guided fuzzing of the same property through rapid.MakeFuzz in the thorough tier) against an integer-arithmetic specification",
     text="Exploration: the real EpochNotifierPerBlock.Start is driven block by block; its published events are compared with an "
          "independent integer specification (one event per epoch with a qualifying seen block, at the first such block). "
          "All N<=3 (thorough 4) windows exhaustively plus random large parameters.",
@@ -26,7 +26,7 @@ reg("C17", "^TestC17$", q=(4000, 1, 300), t=(50000, 16, 1800), fuzz=("FuzzC17", 
     design="§3 C17")
 
 reg("C01", "^TestC01", q=(600, 1, 600), t=(4000, 16, 3000), batch=300,
-    technique="property-based testing: rapid-generated deposit histories (fields, block partitions, restarts, synthetic high-index frontiers) against a reference deposit-contract frontier; differential run against the real bridge contract in an in-process EVM",
+    technique="property-based testing: rapid-generated deposit histories (fields, block partitions, restarts, synthetic high-index frontiers) against a reference deposit-contract frontier; differential run against the real bridge contract in an in-process EVM; scripted-chain leg through the public NewL1 with several deposits per transaction",
     text="Exploration: the real bridge processor (and, in the EVM leg, the public NewL1 syncer on a simulated chain with the real "
          "PolygonZkEVMBridgeV2 bytecode) is compared, deposit by deposit, with the contract's algorithm/contract itself.",
     note="Trusted: ref.Frontier/BridgeLeaf (mirrors of DepositContractBase/getLeafValue, tied to the real contract by the EVM leg); go-ethereum simulated backend; indices >= 2^16 only via synthetic pre-states.",
@@ -40,8 +40,8 @@ reg("C04", "^TestC04$", q=(150, 4, 900), t=(1500, 16, 3600), batch=150,
     note="Trusted: the code itself on the shorter history (twin) + SQLite. Look-ups keyed by root hashes that only existed on the dropped fork are outside the domain (rht is documented as never pruned). Known findings F3/F4 are excluded by signature and counted.",
     design="§3 C04")
 
-reg("C07", "^TestC07$", q=(40, 4, 900), t=(400, 16, 3600), batch=40, level="fault_enumeration",
-    technique="property-based testing with enumerated fault injection: rapid-generated histories; SQL-trigger faults at every row-writing statement of the target block's transaction in turn, contexts cancelled at an enumerated observation point (scripted context), unreadable node tables, restarts; oracle = pre-block snapshot equality and a fault-free twin run",
+reg("C07", "^TestC07(Driver)?$", q=(40, 4, 900), t=(400, 16, 3600), batch=40, level="fault_enumeration",
+    technique="property-based testing with enumerated fault injection: rapid-generated histories; SQL-trigger faults at every row-writing statement of the target block's transaction in turn, contexts cancelled at an enumerated observation point (scripted context), unreadable node tables, restarts; driver-level leg (public l1infotreesync.New on a scripted chain with a storage fault on one block's tree root); oracle = pre-block snapshot equality and a fault-free twin run",
     text="Fault enumeration: for generated histories of the three stores, each storage statement of the target block's transaction "
          "is failed in turn (trigger from a second connection); after the failure nothing of the block is visible, after the retry "
          "and the remaining blocks every table, query, root and proof equals a fault-free twin.",
@@ -79,7 +79,7 @@ reg("C05", "^TestC05$", q=(300, 4, 900), t=(3000, 16, 3600), batch=300,
     design="§3 C05")
 
 reg("C16", "^TestC16(FEP)?$", q=(80, 4, 900), t=(800, 16, 3600), batch=120,
-    technique="property-based testing: rapid-generated L2 GER insert/remove histories, polling cadences, a lagging L1 info syncer and restarts through the public lastgersync.New (PP mode; a quarter of the budget in FEP mode, where the scripted chain answers the downloader's eth_call to the L2 GER contract) + real reorg detector on a scripted chain; oracle = reference set of live injected GERs",
+    technique="property-based testing: rapid-generated L2 GER insert/remove histories (out-of-order indexes, re-injected roots, thousands of event-less blocks between two polls), polling cadences, a lagging L1 info syncer and restarts through the public lastgersync.New (PP mode; a quarter of the budget in FEP mode, where the scripted chain answers the downloader's eth_call to the L2 GER contract) + real reorg detector on a scripted chain; oracle = reference set of live injected GERs",
     text="Exploration: the public constructor's syncer (real PP downloader, driver, processor, reorg detector) follows a scripted L2 "
          "chain whose tip advances by 1..10 blocks between polls, with restarts; at quiescence every index query must return a live "
          "injected GER with index >= X whenever one exists.",
@@ -87,7 +87,7 @@ reg("C16", "^TestC16(FEP)?$", q=(80, 4, 900), t=(800, 16, 3600), batch=120,
     design="§3 C16")
 
 reg("C20", "^TestC20(E2E)?$", q=(3000, 4, 600), t=(30000, 16, 3000), fuzz=("FuzzC20", 180),
-    technique="property-based testing: grammar-generated call trees (rapid) + native coverage-guided fuzzing through a structured byte decoder; oracle = recursive specification of the live matching call",
+    technique="property-based testing: grammar-generated call trees (rapid) + native coverage-guided fuzzing through a structured byte decoder; end-to-end leg through the public NewL2 incl. a transaction re-executed on a new fork during the download; oracle = recursive specification of the live matching call",
     text="Exploration: generated debug_traceTransaction call trees (both ABI generations packed with the real contract ABIs, reverted "
          "frames anywhere, decoys) are fed to the real setClaimCalldata/findCall/decode path; the recorded details must be those of a "
          "live matching bridge call, or an error with the claim untouched.",
@@ -135,7 +135,7 @@ reg("C13", "^TestC13$", q=(150, 4, 1500), t=(600, 16, 5400), batch=40, level="fa
     design="§3 C13")
 
 reg("C15", "^TestC15$", q=(200, 4, 900), t=(3000, 16, 3600), batch=300,
-    technique="property-based testing, stateful: rapid-generated L1 histories and schedules (finality, syncer progress, ticks, transient faults, external injections) over the real AggOracle tick body and real L1 info store; oracle = safety of each injection + bounded progress",
+    technique="property-based testing, stateful: rapid-generated L1 histories and schedules (finality, sparse syncer progress, L1 reorgs above the finalized block, ticks, transient faults, external injections) over the real AggOracle tick body and real L1 info store; oracle = safety of each injection + bounded progress",
     text="Exploration: the body of the oracle's loop iteration (processLatestGER + error handling, sticky target held by the harness) "
          "runs against the real L1 info store fed block by block ('syncer behind' = blocks not fed yet), a scripted L1 client and a "
          "recording model of the L2 GER contract.",
@@ -151,7 +151,7 @@ reg("C12", "^TestC12$", q=(120, 4, 900), t=(800, 16, 3600), batch=60,
     design="§3 C12")
 
 reg("C06", "^TestC06$", q=(25, 4, 1500), t=(300, 16, 7200), batch=25,
-    technique="property-based testing: rapid-generated chains and fork operations bound to RPC-count triggers, some applied atomically between two consecutive RPCs with a finality jump (plus restarts) through the real reorg detector + public l1infotreesync.New on a scripted chain; oracle = convergence to the reference of the final canonical chain at harness-detected quiescence + rewind bounds read from the detector's reorg_event table",
+    technique="property-based testing: rapid-generated chains and fork operations bound to RPC-count triggers, some applied atomically between two consecutive RPCs with a finality jump (plus restarts, changed chunk size, syncers following the latest or the safe block) through the real reorg detector + public l1infotreesync.New on a scripted chain; oracle = convergence to the reference of the final canonical chain at harness-detected quiescence + rewind bounds read from the detector's reorg_event table",
     text="Exploration: the real reorg detector, downloader, driver and L1 info processor follow a scripted chain that forks above the "
          "finalized frontier at generated moments; when the chain stops changing and the node is idle its leaves must be those of "
          "the canonical chain; isolated forks of delivered blocks must produce a rewind at or before the first replaced block; no rewind without a replaced delivered block.",
